@@ -365,66 +365,7 @@ func c11(c *core.Ctx) {
 
 	// ---------------------------------------------------------------- R4
 	if c.Rule("R4", "a streaming reply always ends with exactly one trailer frame, built from the handler's error, except after a failed response write; nothing is written after it", 2) {
-		for _, hc := range hcs {
-			if !hc.Stream {
-				continue
-			}
-			key := core.FuncName(hc.Fn)
-			sites := handlerInvocations(hc.Fn)
-			isTrailerWrite := func(in ssa.Instruction) bool {
-				call, ok := in.(*ssa.Call)
-				if !ok {
-					return false
-				}
-				ci := core.InfoOf(&call.Call)
-				if ci.Static == nil || !core.PkgIs(ci.Static, "httpgrpc") || len(call.Call.Args) < 4 || core.TypeStr(call.Call.Args[0].Type()) != "io.Writer" {
-					return false
-				}
-				b, isC := core.ConstBool(call.Call.Args[len(call.Call.Args)-1])
-				return isC && b
-			}
-			edgeOK := func(b *ssa.BasicBlock, si int) bool {
-				iff, ok := b.Instrs[len(b.Instrs)-1].(*ssa.If)
-				if !ok {
-					return true
-				}
-				f := core.CondFact(iff.Cond, si == 0)
-				// tabled exit: a response write already failed
-				if f.Op == token.ILLEGAL && !f.Neg {
-					if _, fld, ok := core.FieldOf(f.X); ok && strings.Contains(strings.ToLower(fld), "fail") {
-						return false
-					}
-				}
-				return true
-			}
-			for i, hs := range sites {
-				mn, mx, ok := core.CountRange(core.After(hs), isTrailerWrite, edgeOK)
-				c.Check(ok && mn == 1 && mx == 1, fmt.Sprintf("%s:dispatch#%d:one-trailer", key, i), hs.Pos(), "exactly one trailer frame on every path after the handler (write-failed exit excepted)", fmt.Sprintf("after the handler returned the number of trailer frames written is in [%d,%d], want exactly 1: the client cannot learn the final status", mn, mx))
-			}
-			// trailer is the HttpTrailer built here, and it is the last write
-			for _, call := range core.CallsIn(hc.Fn, func(call *ssa.Call, _ core.CallInfo) bool { return isTrailerWrite(call) }) {
-				msg := call.Call.Args[2]
-				okMsg := core.OriginIs(msg, func(o ssa.Value) bool {
-					al, ok := o.(*ssa.Alloc)
-					return ok && core.NamedOf(al.Type()) == "HttpTrailer"
-				})
-				c.Check(okMsg, key+":trailer-message", call.Pos(), "the final frame carries the HttpTrailer built from the handler's outcome", "the final frame is not the HttpTrailer built in this handler")
-				after := core.Walk(core.After(call), nil, nil)
-				later := false
-				for in := range after {
-					if c2, ok := in.(*ssa.Call); ok {
-						ci := core.InfoOf(&c2.Call)
-						if ci.Iface && (ci.Name == "Write" || ci.Name == "WriteHeader") {
-							later = true
-						}
-						if ci.Static != nil && core.PkgIs(ci.Static, "httpgrpc") && len(c2.Call.Args) >= 4 && core.TypeStr(c2.Call.Args[0].Type()) == "io.Writer" {
-							later = true
-						}
-					}
-				}
-				c.Check(!later, key+":nothing-after-trailer", call.Pos(), "nothing is written after the trailer frame", "something can be written to the reply after the trailer frame")
-			}
-		}
+		c11OneTrailer(c, hcs)
 		c.EndRule()
 	}
 
@@ -503,4 +444,69 @@ func keysOfS(m map[string]string) []string {
 	}
 	sort.Strings(out)
 	return out
+}
+
+// c11OneTrailer: the body of C11/R4 (also a necessary condition of C04: a
+// handler's context error reaches the client only through the trailer).
+func c11OneTrailer(c *core.Ctx, hcs []handlerClosure) {
+	for _, hc := range hcs {
+		if !hc.Stream {
+			continue
+		}
+		key := core.FuncName(hc.Fn)
+		sites := handlerInvocations(hc.Fn)
+		isTrailerWrite := func(in ssa.Instruction) bool {
+			call, ok := in.(*ssa.Call)
+			if !ok {
+				return false
+			}
+			ci := core.InfoOf(&call.Call)
+			if ci.Static == nil || !core.PkgIs(ci.Static, "httpgrpc") || len(call.Call.Args) < 4 || core.TypeStr(call.Call.Args[0].Type()) != "io.Writer" {
+				return false
+			}
+			b, isC := core.ConstBool(call.Call.Args[len(call.Call.Args)-1])
+			return isC && b
+		}
+		edgeOK := func(b *ssa.BasicBlock, si int) bool {
+			iff, ok := b.Instrs[len(b.Instrs)-1].(*ssa.If)
+			if !ok {
+				return true
+			}
+			f := core.CondFact(iff.Cond, si == 0)
+			// tabled exit: a response write already failed
+			if f.Op == token.ILLEGAL && !f.Neg {
+				if _, fld, ok := core.FieldOf(f.X); ok && strings.Contains(strings.ToLower(fld), "fail") {
+					return false
+				}
+			}
+			return true
+		}
+		for i, hs := range sites {
+			mn, mx, ok := core.CountRange(core.After(hs), isTrailerWrite, edgeOK)
+			c.Check(ok && mn == 1 && mx == 1, fmt.Sprintf("%s:dispatch#%d:one-trailer", key, i), hs.Pos(), "exactly one trailer frame on every path after the handler (write-failed exit excepted)", fmt.Sprintf("after the handler returned the number of trailer frames written is in [%d,%d], want exactly 1: the client cannot learn the final status", mn, mx))
+		}
+		// trailer is the HttpTrailer built here, and it is the last write
+		for _, call := range core.CallsIn(hc.Fn, func(call *ssa.Call, _ core.CallInfo) bool { return isTrailerWrite(call) }) {
+			msg := call.Call.Args[2]
+			okMsg := core.OriginIs(msg, func(o ssa.Value) bool {
+				al, ok := o.(*ssa.Alloc)
+				return ok && core.NamedOf(al.Type()) == "HttpTrailer"
+			})
+			c.Check(okMsg, key+":trailer-message", call.Pos(), "the final frame carries the HttpTrailer built from the handler's outcome", "the final frame is not the HttpTrailer built in this handler")
+			after := core.Walk(core.After(call), nil, nil)
+			later := false
+			for in := range after {
+				if c2, ok := in.(*ssa.Call); ok {
+					ci := core.InfoOf(&c2.Call)
+					if ci.Iface && (ci.Name == "Write" || ci.Name == "WriteHeader") {
+						later = true
+					}
+					if ci.Static != nil && core.PkgIs(ci.Static, "httpgrpc") && len(c2.Call.Args) >= 4 && core.TypeStr(c2.Call.Args[0].Type()) == "io.Writer" {
+						later = true
+					}
+				}
+			}
+			c.Check(!later, key+":nothing-after-trailer", call.Pos(), "nothing is written after the trailer frame", "something can be written to the reply after the trailer frame")
+		}
+	}
 }
